@@ -8,6 +8,8 @@ interpreter in mc/kernel.py and compared with dense evaluation."""
 import itertools
 import time
 
+from fibertree import Tensor
+
 from mc import core
 from mc.kernel import EXPRS, Kernel, dense, make_inputs, nest, index_vars, all_values
 
@@ -80,6 +82,12 @@ def programs(name, tile_mode, placements):
         for v in allv:
             for s in range(1, shapes[v] + 1):
                 tilings.append(((v, s),))
+        # tiling through `tensor / parts` (negative entry = number of parts) where the variable is the top rank of
+        # every operand holding it
+        for v in allv:
+            if all(r[0] == v for r in ins if v in r):
+                for parts in range(1, shapes[v] + 1):
+                    tilings.append(((v, -parts),))
     if tile_mode >= 2:
         for v, w in itertools.combinations(allv, 2):
             for s in range(1, shapes[v] + 1):
@@ -106,7 +114,55 @@ def shard_expr(acc, shard, nshards, params):
                family="%s[entries=%s,tile_mode=%d]" % (name, list(alphabet), tile_mode), deadline=deadline)
 
 
-CASES = {"kernel": case_kernel}
+def case_template(case):
+    """Two kernels of the same expression, their outputs derived from ONE empty template tensor by swizzling it to
+    each loop order (a common idiom): both results equal the dense evaluation and the template stays empty."""
+    name, vals, order1, order2, style = case
+    out, ins = EXPRS[name]
+    shapes = shapes_for(name)
+    nests = [nest([shapes[v] for v in r], flat) for r, flat in zip(ins, vals)]
+    exp = dense(out, ins, nests, shapes)
+    feats = {"expr:" + name, "style:" + style, "shared_output_template"}
+    zo = [[v for v in o if v in out] for o in (order1, order2)]
+    feats.add("first_output_order_is_template_order" if zo[0] == list(out) else "first_output_order_permuted")
+    feats.add("second_output_order_is_template_order" if zo[1] == list(out) else "second_output_order_permuted")
+    res = []
+    try:
+        Z0 = Tensor(rank_ids=list(out), shape=[shapes[v] for v in out], name="Z")
+        for i, order in enumerate((order1, order2)):
+            k = Kernel(out, ins, order, {}, style, False)
+            k.run(make_inputs(ins, nests, shapes), ztemplate=Z0)
+            got = k.zcontent()
+            if got != exp:
+                res.append(("kernel", "result-differs-from-dense", feats | {"kernel:%d" % (i + 1)}, exp, got))
+                break
+        if Z0.countValues() != 0:
+            res.append(("kernel", "output-template-modified", feats, 0, Z0.countValues()))
+    except Exception as ex:
+        res.append(("kernel", "exception:" + type(ex).__name__, feats | {"site:" + core.exc_site(ex)},
+                    exp, core.tb_tail(ex)))
+    if exp:
+        core.CUR.nt("kernel")
+    return res
+
+
+def shard_template(acc, shard, nshards, params):
+    name, alphabet = params
+    out, ins = EXPRS[name]
+    shapes = shapes_for(name)
+    allv = index_vars(ins)
+    orders = list(itertools.permutations(allv))
+
+    def gen():
+        for vals in itertools.product(*[list(all_values(r, shapes, alphabet)) for r in ins]):
+            for o1 in orders:
+                for o2 in orders:
+                    yield (name, vals, o1, o2, "two-finger")
+    core.drive(acc, "template", case_template, gen(), shard, nshards,
+               family="%s[shared output template, entries=%s]" % (name, list(alphabet)))
+
+
+CASES = {"kernel": case_kernel, "template": case_template}
 
 
 def run(ctx):
@@ -135,3 +191,11 @@ def run(ctx):
         if ctx.only and n not in ctx.only:
             continue
         ctx.shards(shard_expr, (n, a, t, p, time.time() + (60 if q else 900)))
+    ctx.bounds["division-tiling"] = ("tile_mode >= 1 also tiles through `tensor / parts` (parts = 1..extent) where the variable is the "
+                                     "top rank of every operand holding it")
+    ctx.bounds["shared-output-template"] = ("outer, matmul, elem2d (thorough: + matvec, rowsum): two kernels with every pair of loop "
+                                            "orders take their output from one empty template by swizzleRanks")
+    for n in (("outer", "matmul", "elem2d") if q else ("outer", "matmul", "elem2d", "matvec", "rowsum")):
+        if ctx.only and n not in ctx.only and "template" not in ctx.only:
+            continue
+        ctx.shards(shard_template, (n, (0, 1)))
